@@ -401,8 +401,9 @@ theorem upacketizer_step2 (c : PkCfg) (hc : UnalignedCfg c) (s : PkState) (env :
         cases iv <;>
           simp_all [uRel2, Elem.step, Elem.accNow, Elem.delNow, Elem.out, packetizer, uenvNext2, envAtStart2]
       | true =>
-        have hm : maskPad c { data := ubeat c (resid c dd) (it.data.data % 2 ^ c.dw), first := false, last := true }
+        have hm : ∀ x, maskPad c { data := ubeat c (resid c dd) x, first := false, last := true }
             = flushBeat c dd := by
+          intro x
           simp [maskPad, flushBeat, ubeat_mask]
         cases iv <;>
           simp_all [uRel2, Elem.step, Elem.accNow, Elem.delNow, Elem.out, packetizer, uenvNext2, envAtStart2,
